@@ -220,7 +220,16 @@ func (e *Exec) globalObj(g *ssa.Global) *Object {
 		o.v = v
 		return o
 	}
+	done := false
+	defer func() {
+		if !done {
+			// initialisation was abandoned (e.g. inside a pure-call summary): the variable must be
+			// initialised again on its next use, not left at its zero value
+			delete(e.globals, g)
+		}
+	}()
 	e.ensureInit(g.Pkg, g)
+	done = true
 	return o
 }
 
